@@ -1,8 +1,18 @@
-import XehModel.Driver.Codec
+import XehModel.Driver.C09
+import XehModel.Driver.C12
 
 namespace Xeh.Driver.C13
+open Xeh
 
-/-- stub: not modelled yet -/
-def handle (_args : List String) : String := "unsupported"
+/-- `C13 <word> <cell>*` (cells bottom-first): the same request is sent once with tagged and once with
+    untagged copies of the arguments; arithmetic words are answered by the C09 model, collection / tag /
+    type-predicate words by the C12 model. -/
+def handle (args : List String) : String :=
+  match args with
+  | w :: _ =>
+    match arithWord w with
+    | some _ => C09.handle args
+    | none => C12.handle args
+  | _ => "bad-op"
 
 end Xeh.Driver.C13
